@@ -247,6 +247,54 @@ theorem C10_closure_total (f : Font) (glyphs : List Gid) (hnd : glyphs.Nodup)
     ∃ pops, ∀ e, subset f glyphs ⟨ro, pops⟩ ≠ .err e :=
   subset_total f glyphs hnd ro hp
 
+/-- The guard of the domain as a theorem about the model.  For every legal oracle (a run that is not
+rejected as "illegal order"; rule orders permutations): the outcome is a panic — Go: an index out of
+range in `Glyphs[oldGid]`, `Widths[oldGid]`, … — exactly when some glyph id REACHABLE from the
+requested list (closure under GSUB rules and composite components, `Reach`) is not below the number
+of glyphs of the font; otherwise the outcome is a subset. -/
+theorem C10_panic_iff {f : Font} {glyphs : List Gid} {o : Order}
+    (hnd : glyphs.Nodup) (hp : ∀ k x, (o.rules k x).Perm x)
+    (hne : ∀ e, subset f glyphs o ≠ .err e) :
+    ((∃ m, subset f glyphs o = .panic m) ↔
+      ∃ g, Reach f glyphs (fontRules f) g ∧ f.glyphs.length ≤ g) ∧
+    ((∃ sub, subset f glyphs o = .ok sub) ↔
+      ∀ g, Reach f glyphs (fontRules f) g → g < f.glyphs.length) := by
+  obtain ⟨s, hreach, hout⟩ := subset_outcome hnd hp hne
+  by_cases hany : s.glyphs.any (fun g => decide (f.glyphs.length ≤ g)) = true
+  · rw [hout, if_pos hany]
+    rw [List.any_eq_true] at hany
+    obtain ⟨g, hg, hge⟩ := hany
+    have hge' : f.glyphs.length ≤ g := by simpa using hge
+    constructor
+    · exact ⟨fun _ => ⟨g, (hreach g).1 hg, hge'⟩, fun _ => ⟨_, rfl⟩⟩
+    · constructor
+      · rintro ⟨sub, hs⟩; cases hs
+      · intro hall
+        exact absurd (hall g ((hreach g).1 hg)) (Nat.not_lt.2 hge')
+  · rw [hout, if_neg hany]
+    have hall : ∀ g, Reach f glyphs (fontRules f) g → g < f.glyphs.length := by
+      intro g hg
+      rcases Nat.lt_or_ge g f.glyphs.length with h | h
+      · exact h
+      · exfalso; apply hany
+        rw [List.any_eq_true]
+        exact ⟨g, (hreach g).2 hg, by simpa using h⟩
+    constructor
+    · constructor
+      · rintro ⟨m, hm⟩; cases hm
+      · rintro ⟨g, hg, hge⟩
+        exact absurd (hall g hg) (Nat.not_lt.2 hge)
+    · exact ⟨fun _ => hall, fun _ => ⟨_, rfl⟩⟩
+
+/-- Totality on the domain: if every reachable glyph id is a glyph of the font, then for every choice
+of rule orders there are `pop` sequences with which the model returns a subset. -/
+theorem C10_total_ok (f : Font) (glyphs : List Gid) (hnd : glyphs.Nodup)
+    (ro : Nat → List Rule → List Rule) (hp : ∀ k x, (ro k x).Perm x)
+    (hr : ∀ g, Reach f glyphs (fontRules f) g → g < f.glyphs.length) :
+    ∃ pops sub, subset f glyphs ⟨ro, pops⟩ = .ok sub := by
+  obtain ⟨pops, hne⟩ := subset_total f glyphs hnd ro hp
+  exact ⟨pops, ((C10_panic_iff (o := ⟨ro, pops⟩) hnd hp hne).2).2 hr⟩
+
 /-- Order independence.  For two runs with arbitrary orders (rule permutations and `pop` sequences
 in every round): the SET of retained glyphs is the same — exactly the glyphs reachable from the
 requested ones through GSUB rules and composite components (`Reach`); the glyph lists are
